@@ -222,6 +222,31 @@ def doctype_guard(fn, call):
     return False
 
 
+def text_transformers(fn):
+    """functions applied to a variable and assigned back to a variable inside the function holding the parse site:
+    `xmlpart = __fixXmlPart(xmlpart)`, `data = re.sub(..., data)`, `data = data.replace(...)`; pure codec steps
+    (`.decode`, `.encode`, `str`, `bytes`, `.read`, `StringIO`/`BytesIO`) are not text transformers"""
+    codec = {'decode', 'encode', 'str', 'bytes', 'unicode', 'read', 'StringIO', 'BytesIO', 'InputSource', 'make_parser',
+             'LoadParser', 'isinstance', 'type', 'len'}
+    out = []
+    for n in fn.nodes:
+        if isinstance(n, (ast.Assign, ast.AugAssign)) and isinstance(n.value, ast.Call):
+            targets = n.targets if isinstance(n, ast.Assign) else [n.target]
+            if not all(isinstance(t, ast.Name) for t in targets):
+                continue
+            f = n.value.func
+            name = f.id if isinstance(f, ast.Name) else (f.attr if isinstance(f, ast.Attribute) else None)
+            if name is None or name in codec:
+                continue
+            argnames = set(a.id for x in list(n.value.args) + [k.value for k in n.value.keywords] for a in ast.walk(x) if isinstance(a, ast.Name))
+            recv = f.value.id if isinstance(f, ast.Attribute) and isinstance(f.value, ast.Name) else None
+            tn = set(t.id for t in targets)
+            # the assigned variable is computed from itself (argument or receiver): a rewrite of the data in flight
+            if tn & argnames or (recv in tn):
+                out.append(name)
+    return sorted(out)
+
+
 def inventory(repo):
     files = sorted('odf/' + f for f in os.listdir(os.path.join(repo, 'odf')) if f.endswith('.py'))
     scripts = shipped_scripts(repo)
@@ -369,6 +394,7 @@ def inventory(repo):
         s['member_names'] = sorted(set(l for l, _ in lits))
         s['obj_param'] = any(pfx is not None and pfx in fn.params for _, pfx in lits)
         s['doctype_guard'] = doctype_guard(fn, s['node'])
+        s['prep_names'] = text_transformers(fn)
         s['via'] = via
 
     # ---- reach
@@ -421,7 +447,7 @@ def _at_module_level(tree, node):
 
 def summary(inv):
     return {'files_scanned': len(inv['files']), 'scripts': inv['scripts'],
-            'sites': [{k: s[k] for k in ('id', 'file', 'line', 'func', 'callee_path', 'origin_name', 'member_names', 'obj_param', 'doctype_guard',
+            'sites': [{k: s[k] for k in ('id', 'file', 'line', 'func', 'callee_path', 'origin_name', 'member_names', 'obj_param', 'doctype_guard', 'prep_names',
                                          'reached_by')} for s in inv['sites']],
             'reach': inv['reach'], 'missing_entry_points': inv['missing_entry_points'], 'unparsable': inv['skipped']}
 
@@ -446,7 +472,8 @@ def to_lean(inv):
         L.append('  site %d: %s:%d in %s calls %s (%s) members %s%s%s' % (
             s['id'], s['file'], s['line'], s['func'], s['callee_path'], s['origin_name'], s['member_names'] or '?',
             ' prefixed by a parameter' if s['obj_param'] else '',
-            (' + doctype system/public id guard' if s['doctype_guard'] else '') + ('' if s['library'] else '  [shipped script]')))
+            (' + doctype system/public id guard' if s['doctype_guard'] else '') +
+            (' ; text pre-processing: ' + ', '.join(s['prep_names']) if s['prep_names'] else '') + ('' if s['library'] else '  [shipped script]')))
     L.append('-/')
     L.append('import OdfModel.ParseSite')
     L.append('namespace OdfModel.Generated.ParseSites')
@@ -454,10 +481,10 @@ def to_lean(inv):
     L.append('')
 
     def site(s):
-        return '⟨%d, %d, %d, %d, %d, %d, [%s], %s, %s⟩' % (
+        return '⟨%d, %d, %d, %d, %d, %d, [%s], %s, %s, %d⟩' % (
             s['id'], fcode[s['file']], ucode[(s['file'], s['func'])], ccode[s['callee_path']], s['origin'], s['api'],
             ', '.join(str(m) for m in s['members']), 'true' if s['obj_param'] else 'false',
-            'true' if s['doctype_guard'] else 'false')
+            'true' if s['doctype_guard'] else 'false', len(s['prep_names']))
     lib = [s for s in inv['sites'] if s['library']]
     scr = [s for s in inv['sites'] if not s['library']]
     L.append('/-- parser constructions in the library `odf/*.py` -/')
